@@ -1241,7 +1241,9 @@ func (cw *ColWip) writeNonDeBloom(buf []byte, bi *BloomIndex, numRecs uint16,
 		return err
 	}
 
-	bloomSize := bi.uniqueWordCount
+	// size it for at least one word: NewWithEstimates(0, ...) returns a filter
+	// with 2^63 hash functions, and the filter stays in use for the next block
+	bloomSize := max(bi.uniqueWordCount, 1)
 	bi.Bf = bloom.NewWithEstimates(uint(bloomSize), BLOOM_COLL_PROBABILITY)
 	bi.uniqueWordCount = 0
 
